@@ -18,7 +18,7 @@ def run(tier, seed):
     ts = sorted([c for c in cs if c["model"] == "thdm"], key=lambda c: (c["ytype"], c["basis"], c["offdiag"], c["tb"]))
     reps = 1 if tier == "quick" else 4
     if tier == "quick":
-        ms = [c for i, c in enumerate(ms) if i % 2 == seed % 2]
+        ms = [c for i, c in enumerate(ms) if (i // 2 + i) % 2 == seed % 2]      # half of the combinations, tree and converted alternating
     cfm, cft = cx.path("cases_mssm.txt"), cx.path("cases_thdm.txt")
     n = 0
     with open(cfm, "w") as fm, open(cft, "w") as ft:
